@@ -10,6 +10,7 @@ Theorem C12_qcow2_accepts : forall h, qcow2_gate h = Ok tt ->
   q_magic h = 1363560955 /\ 2 <= q_version h <= 3 /\ 9 <= q_cluster_bits h <= 21 /\ q_crypt h = 0 /\
   512 <= qcow2_subcluster_size h /\
   (q_compression h = 1 -> q_has_zstd h = true) /\
+  Z.land (q_incompat h) (Z.lnot 31) = 0 /\
   (Z.land (q_incompat h) 4 <> 0 -> q_data_file_given h = true) /\
   (q_backing_offset h <> 0 -> q_backing_given h = true).
 Proof. exact qcow2_accepts. Qed.
@@ -41,6 +42,12 @@ Theorem C12_vmdk_sparse_accepts : forall m, vmdk_sparse_gate m = Ok tt ->
 Proof. exact vmdk_sparse_accepts. Qed.
 Print Assumptions C12_vmdk_sparse_accepts.
 
+Theorem C12_vmdk_footer_accepts : forall hm uf fm, vmdk_footer_gate hm uf fm = Ok tt ->
+  (hm = Gen.Consts.vmdk_VMDK_MAGIC \/ hm = Gen.Consts.vmdk_SESPARSE_MAGIC \/ hm = Gen.Consts.vmdk_COWD_MAGIC) /\
+  (uf = true -> fm = Gen.Consts.vmdk_VMDK_MAGIC \/ fm = Gen.Consts.vmdk_COWD_MAGIC).
+Proof. exact vmdk_footer_accepts. Qed.
+Print Assumptions C12_vmdk_footer_accepts.
+
 Theorem C12_hyperv_accepts : forall h, hyperv_gate h = Ok tt ->
   (if hv2_seq h <? hv1_seq h then hv1_sig h else hv2_sig h) = 19406868 /\
   (if hv2_seq h <? hv1_seq h then hv1_ver h else hv2_ver h) = 1024 /\
@@ -65,7 +72,7 @@ Print Assumptions C12_keysafe_accepts.
 
 (* the source's raise inventory (regenerated on every run) is the one the gate models were written from *)
 Theorem C12_raise_inventory_pinned :
-  List.length Gen.Gates.qcow2_QCow2_init_raises = 8%nat /\ List.length Gen.Gates.vhdx_VHDX_init_raises = 3%nat /\
+  List.length Gen.Gates.qcow2_QCow2_init_raises = 9%nat /\ List.length Gen.Gates.vhdx_VHDX_init_raises = 3%nat /\
   List.length Gen.Gates.envelope_Envelope_init_raises = 5%nat /\ List.length Gen.Gates.hyperv_HyperVFile_init_raises = 2%nat.
 Proof. destruct raises_pinned as (A & _). repeat split. Qed.
 Print Assumptions C12_raise_inventory_pinned.
